@@ -118,6 +118,11 @@ def handleC02 : List String → Option String
       let m ← parseRat m.trimAscii.toString
       let ds ← parseRats d
       some s!"ok|{fmtList fmtRat (uniformEdges n m ds)}"
+  | ["linspace", lo, hi, k] => do
+      let lo ← parseRat lo.trimAscii.toString
+      let hi ← parseRat hi.trimAscii.toString
+      let k ← k.trimAscii.toString.toNat?
+      some s!"ok|{fmtList fmtRat (linspaceEdges lo hi k)}"
   | ["midpoints", c] => do
       let cs ← parseRats c
       some s!"ok|{fmtList fmtRat (midpointEdges 0 cs)}"
